@@ -223,8 +223,9 @@ def run(chk):
     rule_padding(chk, prog)
     rule_meta_block_limit(chk, prog)
     chk.floor("K1-contract", 4)
-    from .c08 import rule_g_truncate
+    from .c08 import rule_g_truncate, rule_i_every_block
     rule_g_truncate(chk, load_program("gensquashfs"))
+    rule_i_every_block(chk, load_program("gensquashfs"))
     chk.floor("K13-truncate", 1)
     chk.floor("K7", 45)
     chk.floor("K13-padding", 2)
